@@ -1,17 +1,530 @@
 package symgo
 
+// Bounded scheduler: goroutines of the target run as host goroutines of which exactly one
+// executes at a time. Control changes hands only at scheduling points - lock and unlock,
+// channel operations, select, WaitGroup, Once, atomic operations, go statements, goroutine
+// exit - and which enabled goroutine continues is a decision of the path, so the exploration
+// enumerates the schedules. A switch away from a goroutine that could have continued costs
+// one unit of the preemption budget given to verifrt.Schedule; switches at blocking
+// operations and exits are free. Plain memory accesses are not scheduling points: the
+// claims made with the scheduler assume data-race freedom, which the lockset monitor checks
+// separately. A state in which no goroutine can continue is reported as a hang.
+
 import (
+	"fmt"
+	"go/types"
+	"strings"
+
 	"golang.org/x/tools/go/ssa"
 )
 
-// scheduler: bounded exploration of goroutine interleavings (build stage 5). Until it is
-// implemented the single-goroutine channel semantics of misc.go apply.
-type scheduler struct{}
+type threadKilled struct{}
 
-func (s *scheduler) send(ch chan value, v value)         { panic(engineAbort{"unsupported: scheduler"}) }
-func (s *scheduler) recv(ch chan value) (value, bool)    { panic(engineAbort{"unsupported: scheduler"}) }
-func (s *scheduler) closeChan(ch chan value)             { panic(engineAbort{"unsupported: scheduler"}) }
-func (s *scheduler) spawn(fn value, args []value)        { panic(engineAbort{"unsupported: scheduler"}) }
+type gthread struct {
+	id      int
+	wake    chan bool // true: run; false: the path is over, unwind
+	done    bool
+	parked  bool
+	depth   int
+	enabled func() bool // nil when runnable; the condition it waits for otherwise
+	recvOn  []chan value
+}
+
+type chanState struct {
+	buf      []value
+	capacity int
+	closed   bool
+	taken    int // number of values received so far (for the unbuffered handshake)
+	sent     int
+}
+
+type scheduler struct {
+	in       *interpreter
+	threads  []*gthread
+	cur      *gthread
+	preempts int
+	chans    map[chan value]*chanState
+	wgs      map[*value]*int
+	onces    map[*value]int // 1 running, 2 done
+	fatal    any
+	steps    int
+	maxSteps int
+}
+
+func newScheduler(in *interpreter, preempts int) *scheduler {
+	main := &gthread{id: 0, wake: make(chan bool)}
+	return &scheduler{in: in, threads: []*gthread{main}, cur: main, preempts: preempts,
+		chans: map[chan value]*chanState{}, wgs: map[*value]*int{}, onces: map[*value]int{}, maxSteps: 20000}
+}
+
+func (s *scheduler) isEnabled(t *gthread) bool {
+	return !t.done && (t.enabled == nil || t.enabled())
+}
+
+// park blocks the calling host goroutine until it is scheduled again.
+func (s *scheduler) park(t *gthread) {
+	t.parked = true
+	ok := <-t.wake
+	t.parked = false
+	if !ok {
+		panic(threadKilled{})
+	}
+	s.in.depth = t.depth
+	if t.id == 0 && s.fatal != nil {
+		f := s.fatal
+		s.fatal = nil
+		panic(f)
+	}
+}
+
+func (s *scheduler) switchTo(next *gthread) {
+	cur := s.cur
+	if next == cur {
+		return
+	}
+	cur.depth = s.in.depth
+	s.cur = next
+	next.wake <- true
+	s.park(cur)
+}
+
+// yield is a scheduling point of the running goroutine; cond (may be nil) is the condition
+// under which it can perform its next operation. yield returns when the goroutine has been
+// chosen to continue and cond holds.
+func (s *scheduler) yield(cond func() bool, recvOn ...chan value) {
+	in := s.in
+	if in.runningEnsure {
+		return
+	}
+	s.steps++
+	if s.steps > s.maxSteps {
+		panic(engineAbort{fmt.Sprintf("scheduler step budget %d exhausted", s.maxSteps)})
+	}
+	cur := s.cur
+	selfOK := cond == nil || cond()
+	cur.enabled, cur.recvOn = cond, recvOn
+	var cands []*gthread
+	for _, t := range s.threads {
+		if t == cur {
+			if selfOK {
+				cands = append(cands, t)
+			}
+		} else if s.isEnabled(t) {
+			cands = append(cands, t)
+		}
+	}
+	if len(cands) == 0 {
+		cur.enabled, cur.recvOn = nil, nil
+		panic(targetHang{s.describeHang()})
+	}
+	next := cands[0]
+	if selfOK && (s.preempts <= 0 || len(cands) == 1) {
+		next = cur
+	} else if len(cands) > 1 {
+		next = cands[in.chooseIndex(len(cands), "schedule")]
+	}
+	if next != cur {
+		if selfOK {
+			s.preempts--
+		}
+		s.switchTo(next)
+		// resumed: we were chosen, so cond holds
+	}
+	cur.enabled, cur.recvOn = nil, nil
+}
+
+func (s *scheduler) describeHang() string {
+	blocked := 0
+	for _, t := range s.threads {
+		if !t.done {
+			blocked++
+		}
+	}
+	return fmt.Sprintf("deadlock: all %d live goroutines are blocked", blocked)
+}
+
+func (s *scheduler) spawn(fn value, args []value) {
+	in := s.in
+	t := &gthread{id: len(s.threads), wake: make(chan bool)}
+	s.threads = append(s.threads, t)
+	go func() {
+		if ok := <-t.wake; !ok {
+			return
+		}
+		defer func() {
+			r := recover()
+			if _, killed := r.(threadKilled); killed {
+				return
+			}
+			t.done = true
+			if r != nil {
+				s.fatal = r
+				if !isEngineControl(r) {
+					if _, isTarget := r.(targetPanic); !isTarget {
+						if msg, bug := describePanic(r); bug {
+							s.fatal = engineAbort{"unsupported: " + msg}
+						} else {
+							s.fatal = r
+						}
+					}
+				}
+			}
+			s.exitThread(t)
+		}()
+		in.depth = 0
+		call(in, nil, 0, fn, args)
+	}()
+	// the new goroutine is runnable; starting it is a scheduling point of the parent
+	s.yield(nil)
+}
+
+// exitThread hands control to another goroutine when t has finished.
+func (s *scheduler) exitThread(t *gthread) {
+	main := s.threads[0]
+	if s.fatal != nil {
+		s.cur = main
+		main.wake <- true
+		return
+	}
+	var cands []*gthread
+	for _, o := range s.threads {
+		if o != t && s.isEnabled(o) {
+			cands = append(cands, o)
+		}
+	}
+	if len(cands) == 0 {
+		live := false
+		for _, o := range s.threads {
+			live = live || !o.done
+		}
+		if live {
+			s.fatal = targetHang{s.describeHang()}
+		}
+		s.cur = main
+		if !main.done {
+			main.wake <- true
+		}
+		return
+	}
+	next := cands[0]
+	if len(cands) > 1 {
+		func() {
+			defer func() {
+				if r := recover(); r != nil {
+					s.fatal = r
+					next = main
+				}
+			}()
+			next = cands[s.in.chooseIndex(len(cands), "schedule")]
+		}()
+	}
+	s.cur = next
+	next.wake <- true
+}
+
+// killAll ends every parked goroutine (at the end of a path).
+func (s *scheduler) killAll() {
+	for _, t := range s.threads[1:] {
+		if !t.done && t.parked {
+			t.wake <- false
+		} else if !t.done {
+			// never started
+			select {
+			case t.wake <- false:
+			default:
+			}
+		}
+	}
+}
+
+// ---- channels -------------------------------------------------------------------------
+
+func (s *scheduler) chanOf(ch chan value) *chanState {
+	cs := s.chans[ch]
+	if cs == nil {
+		cs = &chanState{capacity: cap(ch)}
+		// values put into the host channel before the scheduler was switched on
+		for len(ch) > 0 {
+			cs.buf = append(cs.buf, <-ch)
+		}
+		if s.in.closedChans[ch] {
+			cs.closed = true
+		}
+		s.chans[ch] = cs
+	}
+	return cs
+}
+
+func (s *scheduler) receiverWaiting(ch chan value) bool {
+	for _, t := range s.threads {
+		if t != s.cur && !t.done && t.parked {
+			for _, c := range t.recvOn {
+				if c == ch {
+					return true
+				}
+			}
+		}
+	}
+	return false
+}
+
+func (s *scheduler) sendReady(ch chan value, cs *chanState) bool {
+	if cs.closed {
+		return true
+	}
+	if cs.capacity == 0 {
+		return len(cs.buf) == 0 && s.receiverWaiting(ch)
+	}
+	return len(cs.buf) < cs.capacity
+}
+
+func (s *scheduler) send(ch chan value, v value) {
+	if ch == nil {
+		s.yield(func() bool { return false })
+	}
+	cs := s.chanOf(ch)
+	s.yield(func() bool { return s.sendReady(ch, cs) })
+	if cs.closed {
+		panic(targetPanic{iface{s.in.runtimeErrorString, "send on closed channel"}})
+	}
+	cs.buf = append(cs.buf, v)
+	cs.sent++
+	if cs.capacity == 0 {
+		// rendezvous: continue once the value has been taken
+		mine := cs.sent
+		s.yield(func() bool { return cs.taken >= mine || cs.closed })
+	}
+}
+
+func (s *scheduler) recv(ch chan value) (value, bool) {
+	if ch == nil {
+		s.yield(func() bool { return false })
+	}
+	cs := s.chanOf(ch)
+	s.yield(func() bool { return len(cs.buf) > 0 || cs.closed }, ch)
+	if len(cs.buf) > 0 {
+		v := cs.buf[0]
+		cs.buf = cs.buf[1:]
+		cs.taken++
+		return v, true
+	}
+	return nil, false
+}
+
+func (s *scheduler) closeChan(ch chan value) {
+	cs := s.chanOf(ch)
+	s.yield(nil)
+	if cs.closed {
+		panic(targetPanic{iface{s.in.runtimeErrorString, "close of closed channel"}})
+	}
+	cs.closed = true
+}
+
+func (s *scheduler) chanLen(ch chan value) int {
+	if ch == nil {
+		return 0
+	}
+	return len(s.chanOf(ch).buf)
+}
+
 func (s *scheduler) selectStmt(fr *frame, instr *ssa.Select) value {
-	panic(engineAbort{"unsupported: scheduler"})
+	type selCase struct {
+		ch   chan value
+		cs   *chanState
+		recv bool
+	}
+	cases := make([]selCase, len(instr.States))
+	var recvOn []chan value
+	for i, st := range instr.States {
+		ch, _ := fr.get(st.Chan).(chan value)
+		cases[i] = selCase{ch: ch, recv: st.Dir == types.RecvOnly}
+		if ch != nil {
+			cases[i].cs = s.chanOf(ch)
+			if cases[i].recv {
+				recvOn = append(recvOn, ch)
+			}
+		}
+	}
+	ready := func() []int {
+		var out []int
+		for i, c := range cases {
+			if c.ch == nil {
+				continue
+			}
+			if c.recv {
+				if len(c.cs.buf) > 0 || c.cs.closed {
+					out = append(out, i)
+				}
+			} else if s.sendReady(c.ch, c.cs) {
+				out = append(out, i)
+			}
+		}
+		return out
+	}
+	if instr.Blocking {
+		s.yield(func() bool { return len(ready()) > 0 }, recvOn...)
+	} else {
+		s.yield(nil)
+	}
+	rs := ready()
+	chosen := -1
+	if len(rs) > 0 {
+		chosen = rs[0]
+		if len(rs) > 1 {
+			chosen = rs[s.in.chooseIndex(len(rs), "select")]
+		}
+	}
+	recvOk := false
+	var recv value
+	if chosen >= 0 {
+		c := cases[chosen]
+		if c.recv {
+			if len(c.cs.buf) > 0 {
+				recv, recvOk = c.cs.buf[0], true
+				c.cs.buf = c.cs.buf[1:]
+				c.cs.taken++
+			}
+		} else {
+			if c.cs.closed {
+				panic(targetPanic{iface{s.in.runtimeErrorString, "send on closed channel"}})
+			}
+			c.cs.buf = append(c.cs.buf, fr.get(instr.States[chosen].Send))
+			c.cs.sent++
+			if c.cs.capacity == 0 {
+				mine := c.cs.sent
+				s.yield(func() bool { return c.cs.taken >= mine || c.cs.closed })
+			}
+		}
+	}
+	r := tuple{chosen, recvOk}
+	for i, st := range instr.States {
+		if st.Dir == types.RecvOnly {
+			var v value
+			if i == chosen && recvOk {
+				v = recv
+			} else {
+				v = zero(st.Chan.Type().Underlying().(*types.Chan).Elem())
+			}
+			r = append(r, v)
+		}
+	}
+	return r
+}
+
+// ---- sync ---------------------------------------------------------------------------
+
+func (s *scheduler) lock(ls *lockState) {
+	s.yield(func() bool { return !ls.writer && ls.readers == 0 })
+	ls.writer = true
+}
+
+func (s *scheduler) rlock(ls *lockState) {
+	s.yield(func() bool { return !ls.writer })
+	ls.readers++
+}
+
+func (s *scheduler) wgCounter(c *value) *int {
+	n := s.wgs[c]
+	if n == nil {
+		n = new(int)
+		s.wgs[c] = n
+	}
+	return n
+}
+
+func init() {
+	rt := RTPath + "."
+	// an atomic operation is a preemption point
+	for k, f := range externals {
+		if strings.Contains(k, "sync/atomic") {
+			f := f
+			externals[k] = func(fr *frame, args []value) value {
+				if s := fr.i.sch; s != nil && s.preempts > 0 {
+					s.yield(nil)
+				}
+				return f(fr, args)
+			}
+		}
+	}
+	// Schedule(preemptions): from here on goroutines are explored by the bounded scheduler.
+	externals[rt+"Schedule"] = func(fr *frame, args []value) value {
+		in := fr.i
+		if in.sch == nil {
+			in.sch = newScheduler(in, int(asInt64(args[0])))
+		}
+		return nil
+	}
+	externals["(*sync.WaitGroup).Add"] = func(fr *frame, args []value) value {
+		in := fr.i
+		if in.sch == nil {
+			in.sch = newScheduler(in, 0)
+		}
+		in.sch.yield(nil)
+		n := in.sch.wgCounter(cell(args[0]))
+		*n += int(asInt64(args[1]))
+		if *n < 0 {
+			panic(targetPanic{iface{in.runtimeErrorString, "sync: negative WaitGroup counter"}})
+		}
+		return nil
+	}
+	externals["(*sync.WaitGroup).Done"] = func(fr *frame, args []value) value {
+		return externals["(*sync.WaitGroup).Add"](fr, []value{args[0], int(-1)})
+	}
+	externals["(*sync.WaitGroup).Wait"] = func(fr *frame, args []value) value {
+		in := fr.i
+		if in.sch == nil {
+			in.sch = newScheduler(in, 0)
+		}
+		n := in.sch.wgCounter(cell(args[0]))
+		in.sch.yield(func() bool { return *n == 0 })
+		return nil
+	}
+	externals["(*sync.WaitGroup).Go"] = func(fr *frame, args []value) value {
+		in := fr.i
+		if in.sch == nil {
+			in.sch = newScheduler(in, 0)
+		}
+		n := in.sch.wgCounter(cell(args[0]))
+		*n++
+		f := args[1]
+		done := func(fr2 *frame, a []value) value { return nil }
+		_ = done
+		in.sch.spawnWithExit(f, func() { *n-- })
+		return nil
+	}
+}
+
+// spawnWithExit starts fn() and runs atExit when it returns normally.
+func (s *scheduler) spawnWithExit(fn value, atExit func()) {
+	in := s.in
+	t := &gthread{id: len(s.threads), wake: make(chan bool)}
+	s.threads = append(s.threads, t)
+	go func() {
+		if ok := <-t.wake; !ok {
+			return
+		}
+		defer func() {
+			r := recover()
+			if _, killed := r.(threadKilled); killed {
+				return
+			}
+			t.done = true
+			if r != nil {
+				s.fatal = r
+				if !isEngineControl(r) {
+					if _, isTarget := r.(targetPanic); !isTarget {
+						if msg, bug := describePanic(r); bug {
+							s.fatal = engineAbort{"unsupported: " + msg}
+						}
+					}
+				}
+			} else {
+				atExit()
+			}
+			s.exitThread(t)
+		}()
+		in.depth = 0
+		call(in, nil, 0, fn, nil)
+	}()
+	s.yield(nil)
 }
